@@ -270,15 +270,20 @@ func (r *Run) Finish() {
 		fmt.Printf(" states=%v transitions=%v", s, cov["transitions"])
 	}
 	fmt.Println()
-	if r.engineError != "" {
-		fmt.Println("ENGINE-ERROR", r.engineError)
-		os.Exit(2)
-	}
 	if len(r.violations) > 0 {
+		// a violation that was found (and, in the scheduler checks, confirmed by a replay) stands even if
+		// another part of the exploration ran into an engine error
 		for _, v := range r.violations {
 			fmt.Printf("VIOLATION property=%s replay=%s\n  %s: %s\n", r.ID, v.path, v.Sig, clip(v.What, 400))
 		}
+		if r.engineError != "" {
+			fmt.Println("ENGINE-ERROR (in addition to the violations above)", r.engineError)
+		}
 		os.Exit(1)
+	}
+	if r.engineError != "" {
+		fmt.Println("ENGINE-ERROR", r.engineError)
+		os.Exit(2)
 	}
 	os.Exit(0)
 }
